@@ -154,11 +154,6 @@ def exCfg : Cfg := ⟨.eukaryotic, true, false, currentWriterRule⟩
 
 example : writeDomain exColl = true := by decide +kernel
 
-theorem exColl_children : childrenOf exColl = exColl.items := by
-  unfold childrenOf
-  rw [List.mergeSort_of_pairwise (by decide +kernel)]
-  rfl
-
 def typesWritten (r : Model.R (List Rec)) : Option (List Str) :=
   match r with | .ok rs => some (rs.map (·.type)) | .error _ => none
 
@@ -167,8 +162,12 @@ def typesWritten (r : Model.R (List Rec)) : Option (List Str) :=
 example : typesWritten (writeModel exCfg exColl) =
     some ["gene".toList, "mRNA".toList, "CDS".toList, "gene".toList, "tRNA".toList, "misc_feature".toList,
           "feat_interval".toList] := by
+  have hch : childrenOf exColl = exColl.items := by
+    unfold childrenOf
+    rw [List.mergeSort_of_pairwise (by decide +kernel)]
+    rfl
   unfold writeModel
-  rw [exColl_children]
+  rw [hch]
   decide +kernel
 
 def codonStartWritten (r : Model.R Rec) : Option (List Str) :=
@@ -178,15 +177,14 @@ def codonStartWritten (r : Model.R Rec) : Option (List Str) :=
 example : codonStartWritten (addCdsFeature exCfg none exTx [] .minus) = some ["2".toList] ∧
     exCfg.rule.emitsCodonStart = true := by decide +kernel
 
-theorem exColl2_children : childrenOf exColl2 = exColl2.items := by
-  unfold childrenOf
-  rw [List.mergeSort_of_pairwise (by decide +kernel)]
-  rfl
-
 /-- hypotheses of `written_collection_regrouped_partial` on a minus-strand two-exon coding gene + a tRNA gene -/
 example : writeModel exCfg2 exColl2 = .ok exRs2 ∧ (∀ it ∈ exColl2.items, GeneItemOK it) ∧
     ((childrenOf exColl2).filterMap itemTag).Pairwise (fun a b => strLt a b = true) ∧
     (∀ r ∈ exRs2, validFeature r = true) ∧ sortByPositionAndType exRs2 = exRs2 ∧ exRs2.length = 5 := by
+  have exColl2_children : childrenOf exColl2 = exColl2.items := by
+    unfold childrenOf
+    rw [List.mergeSort_of_pairwise (by decide +kernel)]
+    rfl
   refine ⟨?_, ?_, ?_, ?_, ?_, ?_⟩
   · unfold writeModel
     rw [exColl2_children]
